@@ -544,12 +544,27 @@ func boundedClasses(li *LockInfo) map[LockClass]bool {
 
 // syncReachSkipping is syncReach that does not follow a call for which skip reports true.
 func syncReachSkipping(li *LockInfo, roots []*ssa.Function, skip func(caller *ssa.Function, in ssa.Instruction) bool) map[*ssa.Function]bool {
+	// Calls of a function-typed parameter are resolved in the context of the call that bound it: p.modify(func…)
+	// runs the literal this caller passes, not every literal any caller of modify passes.
 	seen := map[*ssa.Function]bool{}
-	var visit func(f *ssa.Function)
-	visit = func(f *ssa.Function) {
-		if seen[f] {
+	seenCtx := map[string]bool{}
+	var visit func(f *ssa.Function, bind map[*ssa.Parameter][]*ssa.Function)
+	visit = func(f *ssa.Function, bind map[*ssa.Parameter][]*ssa.Function) {
+		key := fmt.Sprintf("%p", f)
+		if len(bind) > 0 {
+			var ks []string
+			for p, fs := range bind {
+				for _, g := range fs {
+					ks = append(ks, fmt.Sprintf("%p=%p", p, g))
+				}
+			}
+			sort.Strings(ks)
+			key += "|" + strings.Join(ks, ",")
+		}
+		if seenCtx[key] {
 			return
 		}
+		seenCtx[key] = true
 		seen[f] = true
 		eachInstr(f, func(in ssa.Instruction) {
 			if _, isGo := in.(*ssa.Go); isGo {
@@ -558,13 +573,42 @@ func syncReachSkipping(li *LockInfo, roots []*ssa.Function, skip func(caller *ss
 			if skip != nil && skip(f, in) {
 				return
 			}
+			call, isCall := asCall(in)
+			if isCall {
+				// a call of one of f's own function-typed parameters
+				if p, ok := cellValue(call.Common().Value).(*ssa.Parameter); ok && p.Parent() == f {
+					if gs, bound := bind[p]; bound {
+						for _, g := range gs {
+							visit(g, nil)
+						}
+						return
+					}
+				}
+			}
 			for _, g := range li.Callees[in] {
-				visit(g)
+				var nb map[*ssa.Parameter][]*ssa.Function
+				if isCall && staticCallee(call) != nil && unwrapSynthetic(staticCallee(call)) == g {
+					for ai, a := range callArgs(call) {
+						if ai >= len(g.Params) {
+							break
+						}
+						if _, isFn := g.Params[ai].Type().Underlying().(*types.Signature); !isFn {
+							continue
+						}
+						if cl := closureFn(a); cl != nil {
+							if nb == nil {
+								nb = map[*ssa.Parameter][]*ssa.Function{}
+							}
+							nb[g.Params[ai]] = append(nb[g.Params[ai]], cl)
+						}
+					}
+				}
+				visit(g, nb)
 			}
 		})
 	}
 	for _, f := range roots {
-		visit(f)
+		visit(f, nil)
 	}
 	return seen
 }
